@@ -43,7 +43,9 @@
 (*                      where the statement does                           *)
 (*  C14:get-present     source GET of a blob the target repository had     *)
 (*  C14:twice           a blob fetched or pushed more than once            *)
-(*  C14:no-mount        same registry, mount granted, yet bytes moved      *)
+(*  C14:no-mount        same registry: bytes moved for a blob whose mount  *)
+(*                      the registry did not decline (a mount that would   *)
+(*                      be granted has to be requested)                    *)
 (*  C14:retag           same repository: a blob request, or (without the   *)
 (*                      force-recursive option) not exactly one manifest   *)
 (*                      PUT                                                *)
@@ -84,10 +86,11 @@ VARIABLES hdr,       \* header facts (record), see CopyTrace
           tagMoved,  \* the requested tag / top digest has been written by this copy
           gets,      \* bag of source blob GETs   (sequence of names)
           commits,   \* bag of blob pushes        (sequence of names)
+          declined,  \* blobs whose cross-repository mount the registry declined (POST ?mount= answered 202)
           nBlobReq, nManPut, nWrites,
           res,       \* "" | "ok" | "err" | "dead"
           bad
-pvars == <<hdr, mkind, edges, refs, dtags, alias, init0, cur, written, tagMoved, gets, commits,
+pvars == <<hdr, mkind, edges, refs, dtags, alias, init0, cur, written, tagMoved, gets, commits, declined,
            nBlobReq, nManPut, nWrites, res, bad>>
 
 Range(s) == {s[i] : i \in 1..Len(s)}
@@ -183,26 +186,26 @@ StoreChecks(st, w, contentWrite) ==
 \* ------------------------------------------------------------- actions
 PInit == /\ hdr = [root |-> ""] /\ mkind = {} /\ edges = {} /\ refs = {} /\ dtags = {} /\ alias = {}
          /\ init0 = EmptyStore /\ cur = EmptyStore /\ written = {} /\ tagMoved = FALSE
-         /\ gets = <<>> /\ commits = <<>> /\ nBlobReq = 0 /\ nManPut = 0 /\ nWrites = 0
+         /\ gets = <<>> /\ commits = <<>> /\ declined = {} /\ nBlobReq = 0 /\ nManPut = 0 /\ nWrites = 0
          /\ res = "" /\ bad = ""
 PReset(h) == /\ hdr' = h /\ mkind' = {} /\ edges' = {} /\ refs' = {} /\ dtags' = {} /\ alias' = {}
              /\ init0' = EmptyStore /\ cur' = EmptyStore /\ written' = {} /\ tagMoved' = FALSE
-             /\ gets' = <<>> /\ commits' = <<>> /\ nBlobReq' = 0 /\ nManPut' = 0 /\ nWrites' = 0
+             /\ gets' = <<>> /\ commits' = <<>> /\ declined' = {} /\ nBlobReq' = 0 /\ nManPut' = 0 /\ nWrites' = 0
              /\ res' = "" /\ bad' = ""
 
 Same(vs) == UNCHANGED vs
 PMan(n, k) == mkind' = mkind \cup {<<n, k>>} /\
-              Same(<<hdr, edges, refs, dtags, alias, init0, cur, written, tagMoved, gets, commits, nBlobReq, nManPut, nWrites, res, bad>>)
+              Same(<<hdr, edges, refs, dtags, alias, init0, cur, written, tagMoved, gets, commits, declined, nBlobReq, nManPut, nWrites, res, bad>>)
 PEdge(e) == edges' = edges \cup {e} /\
-            Same(<<hdr, mkind, refs, dtags, alias, init0, cur, written, tagMoved, gets, commits, nBlobReq, nManPut, nWrites, res, bad>>)
+            Same(<<hdr, mkind, refs, dtags, alias, init0, cur, written, tagMoved, gets, commits, declined, nBlobReq, nManPut, nWrites, res, bad>>)
 PReferrer(r) == refs' = refs \cup {r} /\
-                Same(<<hdr, mkind, edges, dtags, alias, init0, cur, written, tagMoved, gets, commits, nBlobReq, nManPut, nWrites, res, bad>>)
+                Same(<<hdr, mkind, edges, dtags, alias, init0, cur, written, tagMoved, gets, commits, declined, nBlobReq, nManPut, nWrites, res, bad>>)
 PDTag(d) == dtags' = dtags \cup {d} /\
-            Same(<<hdr, mkind, edges, refs, alias, init0, cur, written, tagMoved, gets, commits, nBlobReq, nManPut, nWrites, res, bad>>)
+            Same(<<hdr, mkind, edges, refs, alias, init0, cur, written, tagMoved, gets, commits, declined, nBlobReq, nManPut, nWrites, res, bad>>)
 PAlias(q, n, pfx) == alias' = alias \cup {<<q, n, pfx>>} /\
-                     Same(<<hdr, mkind, edges, refs, dtags, init0, cur, written, tagMoved, gets, commits, nBlobReq, nManPut, nWrites, res, bad>>)
+                     Same(<<hdr, mkind, edges, refs, dtags, init0, cur, written, tagMoved, gets, commits, declined, nBlobReq, nManPut, nWrites, res, bad>>)
 PInitStore(st) == init0' = st /\ cur' = st /\
-                  Same(<<hdr, mkind, edges, refs, dtags, alias, written, tagMoved, gets, commits, nBlobReq, nManPut, nWrites, res, bad>>)
+                  Same(<<hdr, mkind, edges, refs, dtags, alias, written, tagMoved, gets, commits, declined, nBlobReq, nManPut, nWrites, res, bad>>)
 
 BlobClasses == {"blob_head", "blob_get", "blob_delete", "upload_post", "mount_post", "upload_put",
                 "upload_patch", "upload_get", "upload_delete"}
@@ -216,6 +219,7 @@ PReq(side, class, n, code, data) ==
   /\ gets' = IF class = "blob_get" /\ OnSrc(side) /\ code \in {200, 206} THEN Append(gets, n) ELSE gets
   /\ nBlobReq' = nBlobReq + (IF class \in BlobClasses THEN 1 ELSE 0)
   /\ nWrites' = nWrites + (IF class \in WriteClasses /\ OnTgt(side) THEN 1 ELSE 0)
+  /\ declined' = IF class = "mount_post" /\ code = 202 THEN declined \cup {n} ELSE declined
   /\ Same(<<hdr, mkind, edges, refs, dtags, alias, init0, cur, written, tagMoved, commits, nManPut, res, bad>>)
 
 \* a request that wrote to the target; s is the raw target store right after it.
@@ -228,7 +232,7 @@ PWrite(side, class, n, code, data, pn, fb, istag, s) ==
   IN /\ cur' = s
      /\ written' = w
      /\ tagMoved' = (tagMoved \/ Moved(s) \/ top)
-     /\ gets' = gets
+     /\ gets' = gets /\ declined' = declined
      /\ commits' = IF (class = "upload_put" /\ code = 201) \/ (class = "upload_post" /\ code = 201 /\ data > 0)
                    THEN Append(commits, n) ELSE commits
      /\ nBlobReq' = nBlobReq + (IF class \in BlobClasses THEN 1 ELSE 0)
@@ -245,14 +249,14 @@ PSnap(s) ==
      /\ written' = w
      /\ tagMoved' = (tagMoved \/ Moved(s))
      /\ bad' = First(StoreChecks(s, w, new # {}))
-     /\ Same(<<hdr, mkind, edges, refs, dtags, alias, init0, gets, commits, nBlobReq, nManPut, nWrites, res>>)
+     /\ Same(<<hdr, mkind, edges, refs, dtags, alias, init0, gets, commits, declined, nBlobReq, nManPut, nWrites, res>>)
 
 C14Checks(s) ==
   LET bl == Range(gets) \cup Range(commits)
       ident == Identical
   IN << <<"C14", \E b \in Range(gets) : b \in init0.b, "C14:get-present">>,
         <<"C14", \E b \in bl : Count(gets, b) > 1 \/ Count(commits, b) > 1, "C14:twice">>,
-        <<"C14", On(hdr.mountok) /\ bl # {}, "C14:no-mount">>,
+        <<"C14", On(hdr.mountok) /\ (bl \ declined) # {}, "C14:no-mount">>,
         <<"C14", On(hdr.samerepo) /\ (nBlobReq > 0 \/ (~On(hdr.force) /\ nManPut # (IF ident THEN 0 ELSE 1))),
           "C14:retag">>,
         <<"C14", ident /\ ~On(hdr.force) /\ (nWrites > 0 \/ s # init0), "C14:identical">> >>
@@ -276,7 +280,7 @@ PResult(ok, s) ==
                         <<"C03", ok = 1 /\ FaultFree /\ ~Complete(s, init0, TRUE), "C03:incomplete">>,
                         <<"C04", ok = 0 /\ Tagged /\ TagOf(s, "T") \notin {TagOf(init0, "T"), Root},
                           "C04:tag-moved-on-failure">> >>)
-     /\ Same(<<hdr, mkind, edges, refs, dtags, alias, init0, gets, commits, nBlobReq, nManPut, nWrites>>)
+     /\ Same(<<hdr, mkind, edges, refs, dtags, alias, init0, gets, commits, declined, nBlobReq, nManPut, nWrites>>)
 
 \* everything the copy started has ended (requests of goroutines it did not wait for included)
 PFinal(s) ==
@@ -290,7 +294,7 @@ PFinal(s) ==
                      (IF hdr.reftgt = 1 THEN <<>>          \* (two target repositories: C14's counters are per repository)
                       ELSE IF res = "ok" /\ FaultFree THEN C14Checks(s)
                       ELSE IF res = "ok" /\ Transient THEN C14TChecks(s) ELSE <<>>))
-     /\ Same(<<hdr, mkind, edges, refs, dtags, alias, init0, gets, commits, nBlobReq, nManPut, nWrites, res>>)
+     /\ Same(<<hdr, mkind, edges, refs, dtags, alias, init0, gets, commits, declined, nBlobReq, nManPut, nWrites, res>>)
 
 \* the process died here; s is what it leaves behind
 PDeath(s) ==
@@ -301,7 +305,7 @@ PDeath(s) ==
      /\ written' = w
      /\ tagMoved' = (tagMoved \/ Moved(s))
      /\ bad' = First(StoreChecks(s, w, new # {}))
-     /\ Same(<<hdr, mkind, edges, refs, dtags, alias, init0, gets, commits, nBlobReq, nManPut, nWrites>>)
+     /\ Same(<<hdr, mkind, edges, refs, dtags, alias, init0, gets, commits, declined, nBlobReq, nManPut, nWrites>>)
 
 PNote == UNCHANGED pvars
 Ok == bad = ""
